@@ -586,3 +586,60 @@ func Harness_C16_ProgressiveInvocationBacklog() {
 	vAssert("close-returns", cl.Close() == nil)
 	vCover("backlog-handled")
 }
+
+// CallProgressive: the data callback marks the final chunk by progress=false
+// or, as documented, by leaving the option unset (empty or nil options). The
+// chunks go out in order under one request id and the call returns the
+// router's final result.
+func Harness_C16_CallProgressiveChunks() {
+	cl, rt := vNewClient(2 * time.Second)
+	rt.holdCall = true
+	n := 1 + vChoice("chunks", 3)
+	finalKind := vChoice("final-chunk-options", 3) // {progress:false}, {}, nil
+	k := 0
+	send := func(ctx context.Context) (wamp.Dict, wamp.List, wamp.Dict, error) {
+		k++
+		if k < n {
+			return wamp.Dict{"progress": true}, wamp.List{k}, nil, nil
+		}
+		switch finalKind {
+		case 0:
+			return wamp.Dict{"progress": false}, wamp.List{k}, nil, nil
+		case 1:
+			return wamp.Dict{}, wamp.List{k}, nil, nil
+		}
+		return nil, wamp.List{k}, nil, nil
+	}
+	var res *wamp.Result
+	var err error
+	done := make(chan struct{})
+	go func() {
+		defer close(done)
+		res, err = cl.CallProgressive(context.Background(), "p", send, nil)
+	}()
+	vQuiesce()
+	var calls []*wamp.Call
+	for _, m := range rt.got {
+		if c, ok := m.(*wamp.Call); ok {
+			calls = append(calls, c)
+		}
+	}
+	vAssert("every-chunk-sent-once", len(calls) == n)
+	for i, c := range calls {
+		vAssert("chunks-share-the-request-id-and-keep-their-order", c.Request == calls[0].Request && len(c.Arguments) == 1 && c.Arguments[0] == any(i+1))
+		prog, _ := c.Options["progress"].(bool)
+		vAssert("only-the-last-chunk-is-final", prog == (i < n-1))
+	}
+	if len(calls) > 0 {
+		rt.send(&wamp.Result{Request: calls[0].Request, Details: wamp.Dict{}, Arguments: wamp.List{"done"}})
+	}
+	vQuiesce()
+	select {
+	case <-done:
+		vAssert("call-returns-the-final-result", err == nil && res != nil && len(res.Arguments) == 1 && res.Arguments[0] == any("done"))
+	default:
+		vAssert("call-returns", false)
+	}
+	vAssert("close-returns", cl.Close() == nil)
+	vCover("progressive-call-done")
+}
